@@ -159,7 +159,7 @@ def run(ck):
                    what=lambda c: f"GatewayScanFilter.match disagrees with FilterMatch: {c}")
     # --- binding self-test
     muts = []
-    for t in traces:
+    for t in [t for i, t in enumerate(traces) if i not in res.bad]:
         for k, e in enumerate(t["ev"]):
             if e["ev"] == "try" and e["m"] == "secure_tcp" and len(muts) < 40:
                 a = {"t": "scan", "gws": t["gws"], "ev": [dict(x) for x in t["ev"]]}
